@@ -2,16 +2,16 @@
 # usage: confirm_seeded.sh <ID-i> <worktree> <demo test name>
 # Confirms a seeded change produced by an independent sub-agent: demo passes on the clean scratch
 # worktree, fails with the patch, and the pinned suite still passes with the patch applied.
-K=$1; WT=$2; DEMO=$3; D=/tmp/adv-out/$K
-FEAT="--features native_rule_bootstrap,trusted_runtime,host_test"
+K=$1; WT=$2; DEMO=$3; D=/tmp/adv-out/$K; CRATE=${DEMO_CRATE:-warp-core}
+FEAT="--features native_rule_bootstrap,trusted_runtime,host_test"; [ "${DEMO_CRATE:-warp-core}" = "warp-core" ] || FEAT=""
 set -x
 git -C "$WT" checkout -q -- . && git -C "$WT" clean -fdq crates
-cp "$D/demo.rs" "$WT/crates/warp-core/tests/$DEMO.rs"
+cp "$D/demo.rs" "$WT/crates/$CRATE/tests/$DEMO.rs"
 cd "$WT" || exit 2
-cargo test -p warp-core --offline -j 8 $FEAT --test "$DEMO" >"$D/confirm-demo-clean.log" 2>&1; echo "demo-clean exit=$?" >"$D/confirm.txt"
+cargo test -p $CRATE --offline -j 8 $FEAT --test "$DEMO" >"$D/confirm-demo-clean.log" 2>&1; echo "demo-clean exit=$?" >"$D/confirm.txt"
 git -C "$WT" apply "$D/patch.diff" || { echo "patch does not apply" >>"$D/confirm.txt"; exit 1; }
-cargo test -p warp-core --offline -j 8 $FEAT --test "$DEMO" >"$D/confirm-demo-patched.log" 2>&1; echo "demo-patched exit=$?" >>"$D/confirm.txt"
-rm -f "$WT/crates/warp-core/tests/$DEMO.rs"
+cargo test -p $CRATE --offline -j 8 $FEAT --test "$DEMO" >"$D/confirm-demo-patched.log" 2>&1; echo "demo-patched exit=$?" >>"$D/confirm.txt"
+rm -f "$WT/crates/$CRATE/tests/$DEMO.rs"
 REPO_DIR="$WT" /verif/tools/run_baseline.sh "$D/confirm-suite" >>"$D/confirm.txt" 2>&1
 git -C "$WT" checkout -q -- . && git -C "$WT" clean -fdq crates
 set +x
